@@ -127,6 +127,9 @@ type pRun struct {
 	seq      int
 	universe []string
 	tainted  bool
+	// refreshed: the schedule waited for New()'s background refresh (1 s after construction) on purpose, as a
+	// step of the model (BlRefresh.tla); nothing after it can be disturbed by the timer any more
+	refreshed bool
 	verdicts int // violations recorded by this schedule
 }
 
@@ -236,7 +239,7 @@ func (r *pRun) observe() (mem []string, local, tmp fileObs, ver, lp uint64, err 
 }
 
 func (r *pRun) violate(pred, what string, extra map[string]any) {
-	if time.Since(r.born) > 850*time.Millisecond {
+	if !r.refreshed && time.Since(r.born) > 850*time.Millisecond {
 		// New()'s background refresh (1 s after construction) may have re-read
 		// the directory behind the schedule: not a verdict, run it again
 		r.tainted = true
@@ -676,6 +679,7 @@ func (r *pRun) runSchedule(sched []string) error {
 	}
 	r.events = append(r.events, map[string]any{"ev": "Reset"})
 	r.tainted = false
+	r.refreshed = false
 	r.verdicts = 0
 	crashed := false
 	for _, lab := range sched {
@@ -690,6 +694,21 @@ func (r *pRun) runSchedule(sched []string) error {
 			}
 			crashed = true
 			break
+		}
+		if m[1] == "Refresh" {
+			// BlRefresh.tla's Refresh: every writer is parked at a gate (or idle); let the real refreshRemote()
+			// of this BlockList run -- it fires one second after New() -- and go on afterwards
+			if time.Since(r.born) > 850*time.Millisecond {
+				return errTainted // reached too late: the timer may already have fired somewhere earlier
+			}
+			r.hist = append(r.hist, "Refresh")
+			time.Sleep(time.Until(r.born.Add(1600 * time.Millisecond)))
+			r.refreshed = true
+			r.res.Count("refresh_steps", 1)
+			if err := r.afterStep(0, pArrival{}, "refresh"); err != nil {
+				return err
+			}
+			continue
 		}
 		p, _ := strconv.Atoi(m[2])
 		// the step is part of the history before it runs: a predicate that
@@ -737,7 +756,7 @@ func (r *pRun) runSchedule(sched []string) error {
 			return fmt.Errorf("writer %d never returned", w.id)
 		}
 	}
-	if r.tainted || time.Since(r.born) > 850*time.Millisecond {
+	if r.tainted || (!r.refreshed && time.Since(r.born) > 850*time.Millisecond) {
 		return errTainted
 	}
 	if r.verdicts > 0 {
